@@ -1720,9 +1720,12 @@ class Module(ABC):
         state_names = all_externals if state_name is None else [state_name]
         for state_name in state_names:
             if state_name in self.externals:
-                keep_inds = ~np.isin(
-                    self.base.external_inds[state_name], self._nodes_in_view
+                # Synaptic states are indexed by edges, all other states by nodes.
+                is_edge_state = state_name in self.base._get_state_names()[1]
+                inds_in_view = (
+                    self._edges_in_view if is_edge_state else self._nodes_in_view
                 )
+                keep_inds = ~np.isin(self.base.external_inds[state_name], inds_in_view)
                 base_exts = self.base.externals
                 base_exts_inds = self.base.external_inds
                 if np.all(~keep_inds):
@@ -2593,10 +2596,15 @@ class View(Module):
         """Update external inputs to show only those currently in view."""
         self.externals = {}
         self.external_inds = {}
+        edge_states = self.base._get_state_names()[1]
         for (name, inds), data in zip(
             self.base.external_inds.items(), self.base.externals.values()
         ):
-            in_view = np.isin(inds, self._nodes_in_view)
+            # Synaptic states are indexed by edges, all other states by nodes.
+            inds_in_view = (
+                self._edges_in_view if name in edge_states else self._nodes_in_view
+            )
+            in_view = np.isin(inds, inds_in_view)
             inds_in_view = inds[in_view]
             if len(inds_in_view) > 0:
                 self.externals[name] = data[in_view]
